@@ -81,7 +81,8 @@ def motion_of(ch, rots):
 
 
 SPELLINGS = ['surf-tr12', 'surf-tr13', 'surf-startr', 'trcl-num', 'trcl-inline', 'trcl-star',
-             'implicit-both', 'implicit-neg', 'implicit-pos', 'trcl-num-startr']
+             'implicit-both', 'implicit-neg', 'implicit-pos', 'trcl-num-startr', 'both-tr-trcl', 'both-implicit']
+M2 = refsem.Motion((-0.5, 1.0, 0.25), refsem.rotation([0, 1, 0], 90.0).T)     # second motion for compositions
 
 
 def build_state(kind, rname, m, spelling):
@@ -91,6 +92,20 @@ def build_state(kind, rname, m, spelling):
     st.ref = ref.moved(m)
     st.identity = m.is_identity()
     tr12 = tr_numbers(m)
+    if spelling.startswith('both-'):
+        # the surface card carries TR7 (motion m) and the cell a TRCL (motion M2): the cell sees the surface
+        # moved by m first, then by M2
+        st.ref = ref.moved(m).moved(M2)
+        st.identity = False
+        st.surfs = ['1 7 ' + card]
+        st.data = ['tr7 ' + tr12, 'tr8 ' + tr_numbers(M2)]
+        if spelling == 'both-tr-trcl':
+            st.cells = ['1 0 -1 trcl=8 imp:n=1', '2 0 1 trcl=8 imp:n=1']
+            st.expect = {1: 'neg', 2: 'pos'}
+        else:
+            st.cells = ['5 0 -1 trcl=8 imp:n=1', '6 0 -5001 imp:n=1', '7 0 5001 imp:n=1']
+            st.expect = {5: 'neg', 6: 'neg', 7: 'pos'}
+        return st
     if spelling.startswith('surf-'):
         st.cells = ['1 0 -1 imp:n=1', '2 0 1 imp:n=1']
         st.surfs = ['1 7 ' + card]
@@ -101,6 +116,10 @@ def build_state(kind, rname, m, spelling):
             st.data = ['tr7 ' + tr12 + ' 1']
         else:
             st.data = ['*tr7 ' + tr_numbers(m, True)]
+        if kind in ('rpp', 'rcc'):
+            for j in range(1, len(ref.comps) + 1):
+                st.cells.append('%d 0 -1.%d imp:n=1' % (20 + j, j)); st.expect[20 + j] = ('facet', j, -1)
+                st.cells.append('%d 0 1.%d imp:n=1' % (30 + j, j)); st.expect[30 + j] = ('facet', j, 1)
     elif spelling.startswith('trcl'):
         st.surfs = ['1 ' + card]
         st.expect = {1: 'neg', 2: 'pos'}
